@@ -136,6 +136,10 @@ func rtExec(c *Ctx, op string) {
 	src, dst, whDir, cache := filepath.Join(base, "src"), filepath.Join(base, "deep", "dst"), filepath.Join(base, "wh"), filepath.Join(base, "cache")
 	os.MkdirAll(whDir, 0755)
 	os.MkdirAll(filepath.Dir(dst), 0755)
+	if mode == "direct" && caseCounter%2 == 0 { // the destination exists already (mktemp -d), empty, with attributes of its own
+		os.Mkdir(dst, 0700)
+		os.Chtimes(dst, time.Unix(1.1e9, 0), time.Unix(1.1e9, 0))
+	}
 	os.Setenv("RIO_CACHE", cache)
 	os.Setenv("RIO_BASE", filepath.Join(base, "riobase"))
 	ctx := context.Background()
@@ -397,6 +401,18 @@ func packRootExec(c *Ctx, op string) {
 	if pan != "" {
 		c.PropFail("panic-pack", "pack of a fileset with a special root panicked: "+pan, op)
 	}
+	// the documented rule, entry by entry: a reject rule that names an entry refuses the pack, whatever else happens to it
+	rejected := false
+	for _, e := range fsx {
+		if _, rej, _ := specFilter("pack", pfStr, e, uint32(os.Getuid()), uint32(os.Getgid())); rej {
+			rejected = true
+		}
+	}
+	if r := resTok(id, err, pan); rejected && r != "err rio-filter-rejection" {
+		c.PropFail("filter-reject", fmt.Sprintf("pack (%s, %s) answered %s although a reject rule names an entry of the fileset", fmtName, pfStr, r), op)
+	} else if !rejected && r == "err rio-filter-rejection" && len(fsx) > 1 {
+		c.PropFail("filter-reject", fmt.Sprintf("pack (%s, %s) answered filter-rejection although no reject rule names an entry", fmtName, pfStr), op)
+	}
 	c.H("packroot:" + fmtName + ":" + strings.Fields(resTok(id, err, pan))[0])
 	c.Distinct(op)
 }
@@ -408,6 +424,8 @@ func rtEngine(c *Ctx) {
 				rtExec(c, op)
 			} else if strings.HasPrefix(op, "packroot ") {
 				packRootExec(c, op)
+			} else if strings.HasPrefix(op, "rt-notmp ") {
+				readersNoTmp(c, op)
 			}
 		}
 		return
@@ -451,6 +469,24 @@ func packRootsAll(c *Ctx) {
 			for _, fm := range []string{"tar", "zip"} {
 				for _, dv := range []string{"keep", "ignore", "reject"} {
 					packRootExec(c, fmt.Sprintf("packroot %s uid=keep,gid=keep,mtime=keep,sticky=keep,setid=keep,dev=%s %s", fm, dv, filesetTok(r)))
+				}
+			}
+		}
+		// device nodes that carry setuid / setgid / sticky bits, under every combination of the rules that concern them
+		sd := e("sda", 'D')
+		sd.Perms = 04660
+		sn := e("null", 'c')
+		sn.Perms = 02666
+		st := e("tty", 'c')
+		st.Perms = 01620
+		sf := e("f", 'f')
+		sf.Perms = 04755
+		for _, r := range []Fileset{{e("", 'd'), sd}, {e("", 'd'), sn, e("plain", 'f')}, {e("", 'd'), st}, {e("", 'd'), e("zero", 'c'), sf}} {
+			for _, fm := range []string{"tar", "zip"} {
+				for _, si := range []string{"keep", "ignore", "reject"} {
+					for _, dv := range []string{"keep", "ignore", "reject"} {
+						packRootExec(c, fmt.Sprintf("packroot %s uid=keep,gid=keep,mtime=keep,sticky=%s,setid=%s,dev=%s %s", fm, map[string]string{"keep": "keep", "ignore": "ignore", "reject": "keep"}[si], si, dv, filesetTok(r)))
+					}
 				}
 			}
 		}
@@ -507,9 +543,74 @@ func packMultiUntouched(c *Ctx, fmtName string) {
 	c.EmitR(op, "skip", "skip")
 }
 
+// readersNoTmp: scan and unpack read a ware from a local warehouse while the temp directory is unusable (missing) or
+// full (a 16k tmpfs): whatever they answer, the warehouse is what it was. Recipe: "rt-notmp <tar|zip> <missing|full>".
+func readersNoTmp(c *Ctx, op string) {
+	f := strings.Fields(op)
+	fmtName, how := f[1], f[2]
+	caseCounter++
+	base := filepath.Join(c.Work, fmt.Sprintf("nt%d", caseCounter))
+	defer rmrf(base)
+	src, wh := filepath.Join(base, "src"), filepath.Join(base, "wh")
+	os.MkdirAll(src, 0755)
+	os.MkdirAll(wh, 0755)
+	body := make([]byte, 100000)
+	x := uint32(5)
+	for i := range body {
+		x = x*1664525 + 1013904223
+		body[i] = byte(x >> 24)
+	}
+	os.WriteFile(filepath.Join(src, "blob"), body, 0644)
+	os.Setenv("RIO_CACHE", filepath.Join(base, "cache"))
+	os.Setenv("RIO_BASE", filepath.Join(base, "riobase"))
+	fn := funcsFor(fmtName)
+	ctx := context.Background()
+	id, err := fn.pack(ctx, api.PackType(fmtName), src, api.MustParseFilesetPackFilter(losslessPackStr), whAddr("ca", wh), rio.Monitor{})
+	if err != nil {
+		c.EmitR(op, "skip", "skip")
+		return
+	}
+	before, _ := Snapshot(wh)
+	tmp := filepath.Join(base, "no-such-tmp")
+	if how == "full" {
+		tmp = filepath.Join(base, "tiny-tmp")
+		os.MkdirAll(tmp, 0755)
+		if e := syscall.Mount("tmpfs", tmp, "tmpfs", 0, "size=16k"); e != nil {
+			c.EmitR(op, "skip", "skip")
+			return
+		}
+		defer syscall.Unmount(tmp, syscall.MNT_DETACH)
+	}
+	old := os.Getenv("TMPDIR")
+	os.Setenv("TMPDIR", tmp)
+	uf := api.MustParseFilesetUnpackFilter(losslessUnpackStr)
+	_, e1, p1 := safeCall(func() (api.WareID, error) {
+		return fn.scan(ctx, api.PackType(fmtName), uf, rio.Placement_Direct, api.WarehouseLocation("file://"+storedWarePath("ca", wh, id)), rio.Monitor{})
+	})
+	_, e2, p2 := safeCall(func() (api.WareID, error) {
+		return fn.unpack(ctx, id, filepath.Join(base, "dst"), uf, rio.Placement_Direct, []api.WarehouseLocation{whAddr("ca", wh)}, rio.Monitor{})
+	})
+	os.Setenv("TMPDIR", old)
+	after, _ := Snapshot(wh)
+	c.EmitR(op, "skip", "skip")
+	if p1 != "" || p2 != "" {
+		c.PropFail("panic-pack", "scan / unpack without a usable temp directory panicked: "+p1+p2, op)
+	}
+	if d := DiffFilesets(before, after, true); d != "" {
+		c.PropFail("warehouse-mutated", fmt.Sprintf("scan (%s) and unpack (%s) of a %s ware with the temp directory %s changed the warehouse they read from: %s", catOf(e1), catOf(e2), fmtName, how, d), op)
+	}
+	c.H("notmp:" + fmtName + ":" + how + ":" + catOf(e1) + ":" + catOf(e2))
+	c.Distinct(op)
+}
+
 func rtEngineRest(c *Ctx) {
 	packMultiUntouched(c, "tar")
 	packMultiUntouched(c, "zip")
+	for _, fm := range []string{"zip", "tar"} {
+		for _, how := range []string{"missing", "full"} {
+			readersNoTmp(c, fmt.Sprintf("rt-notmp %s %s", fm, how))
+		}
+	}
 	n, maxEnt := 24, 8
 	if c.Tier == "thorough" {
 		n, maxEnt = 400, 30
